@@ -1,5 +1,7 @@
 ---- MODULE Trace_Lane ----
-(* C02 / C11: every lane of every recorded kernel call must represent the field element the scalar operation yields on
+(* Register aliasing (field `al`: the output register is operand a / operand b / all three the same; `inplace` for the block
+   kernels) does not change what is expected: operands are the values the registers held before the call.
+   C02 / C11: every lane of every recorded kernel call must represent the field element the scalar operation yields on
    that lane's operands (exact 128-bit value for the product kernels, canonical value for the canonicalisers), under
    the kernel's documented operand assumption.
    C13 / C14: the 12-wide kernels must equal the mathematical 3-block diagonal product / its horizontal sum / the 4x12
